@@ -21,7 +21,7 @@ use ordered_float::OrderedFloat;
 use write_fonts::{OtRound, types::GlyphId16};
 
 use crate::{
-    error::{BadGlyph, Error},
+    error::{BadGlyph, BadGlyphKind, Error},
     ir::{Component, Glyph, GlyphBuilder, GlyphInstance, GlyphOrder, StaticMetadata},
     orchestration::{Context, Flags, IrWork, WorkId},
     propagate_anchors::propagate_all_anchors,
@@ -252,6 +252,29 @@ fn prune_missing_components(context: &Context) {
             instance.components.retain(|c| !missing.contains(&c.base));
         }
         context.glyphs.set(new_glyph);
+    }
+}
+
+/// Fail if the component graph contains a cycle.
+///
+/// Everything downstream (flattening, decomposition, composite bounding boxes
+/// and maxp limits in the backend) walks the component graph recursively, and
+/// would never terminate on a glyph that (indirectly) refers to itself.
+///
+/// Run after [`prune_missing_components`]: once dangling references are gone,
+/// a glyph that can't be assigned a component depth is in, or refers into, a cycle.
+fn reject_component_cycles(context: &Context) -> Result<(), BadGlyph> {
+    let glyphs = context.glyphs.all();
+    let glyphs = glyphs
+        .iter()
+        .map(|g| (g.1.name.clone().into_inner(), g.1.as_ref()))
+        .collect();
+    let sorted: HashSet<_> = fontdrasil::util::depth_sorted_composite_glyphs(&glyphs)
+        .into_iter()
+        .collect();
+    match glyphs.keys().find(|name| !sorted.contains(*name)) {
+        Some(name) => Err(BadGlyph::new(name.as_str(), BadGlyphKind::ComponentCycle)),
+        None => Ok(()),
     }
 }
 
@@ -828,6 +851,10 @@ impl Work<Context, WorkId, Error> for GlyphOrderWork {
         // missing component can't cause its glyph (or its siblings) to be
         // decomposed. See https://github.com/googlefonts/fontc/issues/1858
         prune_missing_components(context);
+
+        // With dangling references gone, anything we can't depth-sort is a cycle;
+        // fail now, none of the recursive walks below (or in the backend) would terminate.
+        reject_component_cycles(context)?;
 
         // Propagate anchors from components to composites (if enabled)
         // This must happen BEFORE flattening non-export components, because after
